@@ -15,6 +15,18 @@ _N = [0]
 @st.composite
 def cond_programs(draw):
     """conditions (flat and nested) whose members fire one after the other, some before the waiter starts"""
+    if draw(st.integers(0, 3)) == 0:
+        # `(a | b) & c` (also deeper / with `all` inside `any`): the inner condition fires with its first member, another
+        # member of it fires later, the outer one last - the outer value lists every member that has fired by then
+        first, second = draw(st.sampled_from([(0, 1), (1, 0)]))
+        outer_kind, inner_kind = draw(st.sampled_from([('all', 'any'), ('all', 'any'), ('all', 'all'), ('any', 'all')]))
+        c = {'op': 'cond', 'kind': outer_kind, 'evs': [2], 'sub': [{'kind': inner_kind, 'evs': [0, 1]}]}
+        gap = lambda: {'op': 'timeout', 'd': draw(st.integers(1, 2))}  # noqa
+        trig = [gap(), {'op': 'succeed', 'ev': first, 'v': 'first'}, gap(), {'op': 'succeed', 'ev': second, 'v': 'second'},
+                gap(), {'op': 'succeed', 'ev': 2, 'v': 'third'}]
+        pre = [{'op': 'timeout', 'd': draw(st.integers(0, 2))}] if draw(st.booleans()) else []
+        return {'nev': 3, 'nflags': 0, 't0': 0, 'callbacks': [], 'watch': [], 'procs': [
+            {'name': 'p0', 'phase': 1, 'steps': pre + [c, {'op': 'timeout', 'd': 1}]}, {'name': 'p9', 'phase': 7, 'steps': trig}]}
     nev = draw(st.integers(2, 5))
     waiters = []
     phases = [1, 2, 3]
